@@ -2,7 +2,7 @@
    Proofs/OracleExact.v). *)
 From Coq Require Import List Arith Bool.
 From Coq Require Import Permutation.
-From DS Require Import Model.ADD Spec.Count Model.Oracle Proofs.OracleProofs Proofs.OracleExact Proofs.OracleValid.
+From DS Require Import Model.ADD Spec.Count Model.Oracle Proofs.OracleProofs Proofs.OracleExact Proofs.OracleValid Proofs.CompileValid.
 Import ListNotations.
 
 (* the counts of the specification over all tallies always add up to 2^(units-1) *)
@@ -48,6 +48,18 @@ Theorem C09_oracle_exact_validated : forall p d locs target t1 t2,
   oracle_query p d locs target t1 t2 = Some (count_spec p target t1 t2).
 Proof. exact oracle_exact_validated. Qed.
 
+(* compile() in the leaf/factor case, MODELLED (Model/Oracle.v compile_model: per component a header tree over the factor
+   units with 2^f copies of the chain over the leaf units, components concatenated; row locations = the value-1 edges
+   at the level of the row's last unit leaving the nodes reached under its earlier units): for EVERY admissible
+   component structure (hints_ok: the components partition the units, every component has a leaf unit, every row lies
+   in one component and contains at most one leaf) the oracle over the modelled diagram is exact.  What the graph step
+   of compile() must deliver is hints_ok; it is evaluated inside Coq on every instance, and the modelled diagram and
+   locations are compared node by node with what the implementation built. *)
+Theorem C09_compile_exact : forall p comps target t1 t2,
+  hints_ok (p_units p) (p_rows p) comps = true -> 2 <= p_units p -> target < p_units p ->
+  oracle_query p (compile_add (p_type p) comps) (map (row_locs 0 comps) (p_rows p)) target t1 t2 = Some (count_spec p target t1 t2).
+Proof. exact oracle_compile_exact. Qed.
+
 (* compile() in the chain case (every row needs exactly one unit: one-unit-per-row and map/fork pipelines) produces
    such a diagram: the oracle is exact with no further hypothesis *)
 Theorem C09_oracle_chain_exact : forall p target t1 t2,
@@ -67,3 +79,4 @@ Print Assumptions C09_oracle_exact.
 Print Assumptions C09_oracle_chain_exact.
 Print Assumptions C09_oracle_exact_any_order.
 Print Assumptions C09_oracle_exact_validated.
+Print Assumptions C09_compile_exact.
